@@ -24,14 +24,15 @@ def addressOfText (text : List Char) : Option Sx :=
   | '%' :: l :: rest =>
     let loc := up l
     if !(loc == 'I' || loc == 'Q' || loc == 'M') then none else
-    if rest == ['*'] then some (.n "AddressAssignment" [("location", .a (String.singleton loc)), ("size", .a "Unspecified")]) else
+    if rest == ['*'] then some (.n "AddressAssignment" [("location", .a (String.singleton loc)), ("size", .a "Unspecified"), ("address", .l [])]) else
     let (size, digits) := match rest with
       | s :: ds => if (up s == 'X' || up s == 'B' || up s == 'W' || up s == 'D' || up s == 'L') then (String.singleton (up s), ds) else ("Nil", rest)
       | [] => ("Nil", rest)
     -- every part is a decimal number that fits u32
-    let parts := (String.ofList digits).splitOn "."
-    if parts.all (fun p => match natOfDigits 10 p.toList with | some v => v < 2 ^ 32 | none => false) then
-      some (.n "AddressAssignment" [("location", .a (String.singleton loc)), ("size", .a size)])
+    let parts := ((String.ofList digits).splitOn ".").map fun p => natOfDigits 10 p.toList
+    if parts.all (fun p => match p with | some v => v < 2 ^ 32 | none => false) then
+      some (.n "AddressAssignment" [("location", .a (String.singleton loc)), ("size", .a size),
+                                    ("address", .l ((parts.filterMap id).map Sx.nat))])
     else none
   | _ => none
 
@@ -72,7 +73,7 @@ def applyOp (row : Gen.PrecRow) (l r : Sx) : Sx :=
 
 /-- case_list_element / subrange (no white space inside a subrange) -/
 def subrange : P Sx := do
-  let s ← signedInteger; let _ ← tok "Range"; let e ← signedInteger
+  let s ← signedInteger; ws; let _ ← tok "Range"; ws; let e ← signedInteger
   pure (.n "Subrange" [("start", s), ("end", e)])
 
 def enumeratedValue : P Sx := do
@@ -176,8 +177,8 @@ mutual
     | 0 => fail
     | f+1 => do
       let name ← identifier
-      let elems ← many ((do let _ ← tok "Period"; let id ← identifier; pure (Sum.inl id))
-                        <|> (do let s ← subscriptList f; pure (Sum.inr s)))
+      let elems ← many ((do ws; let _ ← tok "Period"; ws; let id ← identifier; pure (Sum.inl id))
+                        <|> (do ws; let s ← subscriptList f; pure (Sum.inr s)))
       pure (buildSymbolic name elems)
 
   def subscriptList : Nat → P (List Sx)
